@@ -908,6 +908,13 @@ def check_C12(sc, v, tier, seed, replay):
                      "ambr": [[6, 0, 1, 6, 0, 1], [0x29, 0x29, 0x29, 0x59, 0x59, 0x29], [rnd.randrange(256) for _ in range(6)]][i % 3],
                      "ambrDl": big(rnd.choice([0, 1, 255, 256, 65535, 65536, 1 << 32, 4000000000000, rnd.randrange(4000000000001)])),
                      "ambrUl": big(rnd.choice([0, 1, 1 << 16, 1 << 24, 1 << 40, 4000000000000]))})
+        # every fourth Accept also carries information elements of later releases behind the tabulated ones, with values that look like
+        # element identifiers of this table (29 PDU address, 22 S-NSSAI, 25 DNN, 7B extended PCO)
+        if i % 4 == 1:
+            later = [[0x17, 1, [0x01, 0x29][i % 2]], [0x18, 2, 0x00, [0x29, 0x22, 0x64][i % 3]], [0x77, 0x00, 0x05, 0x29, 0x05, 0x01, 0x22, 0x09],
+                     [0x66, 3, 0x29, 0x7B, 0x00], [0x1F, 1, [0x25, 0x29][i % 2]]]
+            pick = [later[j] for j in range(5) if (i // 4 + j) % 2 == 0 or i % 12 == 1]
+            skel[-1]["tail"] = [x for t in pick for x in t]
     # dense sweeps through the transfer extractor alone: every aggregate bit rate 0..300 (DL and UL), every 256^k - 1, 256^k, 256^k + 1
     # up to 4e12, rates whose octets contain the identifier of a later IE (00 8B, 00 86, 00 88), TEID / address corners
     rates = list(range(0, 301)) + [x for k in range(1, 6) for x in (256 ** k - 1, 256 ** k, 256 ** k + 1)] + [4000000000000, 0x8B00, 0x8B0000, 0x01008B, 0x8600, 0x018800, 0x008B008B]
